@@ -12,10 +12,12 @@ EX = dict(
 ATOMIC_RULES = [
     (r'self->read_ptr_\.load\(\)', 'rg_load_read( self )', '*'),
     (r'self->write_ptr_\.load\(\)', 'rg_load_write( self )', '*'),
-    (r'self->write_ptr_\.store\( next \)', 'rg_store_write( self, next )', '*'),
-    (r'self->read_ptr_\.store\( next \)', 'rg_store_read( self, next )', '*'),
-    (r'self->data_\[ write \] = in;', 'rg_data_write( self, write, *in );', '*'),
-    (r'out = self->data_\[ read \];', '*out = rg_data_read( self, read );', '*'),
+    (r'self->write_ptr_\.store\( ([^;]+?) \)', r'rg_store_write( self, \1 )', '*'),
+    (r'self->read_ptr_\.store\( ([^;]+?) \)', r'rg_store_read( self, \1 )', '*'),
+    (r'self->write_ptr_\.exchange\( ([^;()]+?) \)', r'rg_exchange_write( self, \1 )', '*'),
+    (r'self->read_ptr_\.exchange\( ([^;()]+?) \)', r'rg_exchange_read( self, \1 )', '*'),
+    (r'self->data_\[ ([^;=]+?) \] = in;', r'rg_data_write( self, \1, *in );', '*'),
+    (r'out = self->data_\[ ([^;=]+?) \];', r'*out = rg_data_read( self, \1 );', '*'),
 ]
 HEAD = r'''
 typedef int ELEM;                 /* element type T: one machine word */
@@ -66,6 +68,14 @@ void rg_store_read(struct ring* self, int v)    { interfere(self);
   __CPROVER_assert(v >= 0 && v < LEN && CNT(self->read_ptr_, self->write_ptr_) >= 1 && CNT(v, self->write_ptr_) + 1 == CNT(self->read_ptr_, self->write_ptr_),
                    "guarantee(consumer): read_ptr_ advances by one and never past write_ptr_");
   self->read_ptr_ = v; }
+int  rg_exchange_write(struct ring* self, int v) { interfere(self); int old = self->write_ptr_;
+  __CPROVER_assert(v >= 0 && v < LEN && CNT(self->read_ptr_, v) == CNT(self->read_ptr_, self->write_ptr_) + 1 && CNT(self->read_ptr_, v) <= (int)G_S,
+                   "guarantee(producer): write_ptr_ advances by one and never onto read_ptr_");
+  self->write_ptr_ = v; return old; }
+int  rg_exchange_read(struct ring* self, int v) { interfere(self); int old = self->read_ptr_;
+  __CPROVER_assert(v >= 0 && v < LEN && CNT(self->read_ptr_, self->write_ptr_) >= 1 && CNT(v, self->write_ptr_) + 1 == CNT(self->read_ptr_, self->write_ptr_),
+                   "guarantee(consumer): read_ptr_ advances by one and never past write_ptr_");
+  self->read_ptr_ = v; return old; }
 void rg_data_write(struct ring* self, int i, ELEM e) { interfere(self);
   __CPROVER_assert(i >= 0 && i < LEN && !PENDING(i, self->read_ptr_, self->write_ptr_), "guarantee(producer): only a non-pending slot is written");
   self->data_[i] = e; }
